@@ -50,10 +50,11 @@ class HeightFrame:
 
     __pyvc_symbolic__ = True
 
-    def __init__(self, height, ncols=1, name="frame", false_rows=None, merged=False):
+    def __init__(self, height, ncols=1, name="frame", false_rows=None, merged=False, fc_dtype="data"):
         self.height, self.ncols, self.name = height, ncols, name
         self.false_rows = false_rows  # for a mask: how many rows are false
         self.merged = merged
+        self.fc_dtype = fc_dtype  # dtype tag of the `failure_case` column: "data" (whatever the data holds), "utf8", "bool", ...
 
     def pyvc_class(self):
         import polars as pl
@@ -64,8 +65,8 @@ class HeightFrame:
     def columns(self):
         return [f"c{k}" for k in range(self.ncols)]
 
-    def _same(self, name, ncols=None):
-        return HeightFrame(self.height, self.ncols if ncols is None else ncols, name, self.false_rows, self.merged)
+    def _same(self, name, ncols=None, fc_dtype=None):
+        return HeightFrame(self.height, self.ncols if ncols is None else ncols, name, self.false_rows, self.merged, fc_dtype or self.fc_dtype)
 
     def with_row_index(self, name="index", *a, **k):
         return self._same("with_row_index", self.ncols + 1)
@@ -88,10 +89,15 @@ class HeightFrame:
         return self._same("rename")
 
     def select(self, *a, **k):
-        return self._same("select", max(1, len(a) + len(k)))
+        # (the only projection that changes the failure_case column: `pl.col.failure_case.struct.json_encode()` - text)
+        return self._same("select", max(1, len(a) + len(k)), fc_dtype="utf8" if self.name == "with_columns" else None)
 
-    def cast(self, *a, **k):
-        return self._same("cast")
+    def cast(self, dtypes=None, *a, **k):
+        import polars as pl
+
+        m = dict(dtypes) if isinstance(dtypes, dict) else {}
+        to = m.get("failure_case")
+        return self._same("cast", fc_dtype="utf8" if to in (pl.Utf8, pl.String) else None)
 
     def with_columns(self, *exprs, **named):
         for k, v in named.items():
@@ -129,7 +135,11 @@ class PolarsFailureCasesReport(Contract):
             total = items[0].height
             for f in items[1:]:
                 total = total + f.height
-            return HeightFrame(total, 6, "concat")
+            kinds = {f.fc_dtype for f in items}
+            if len(kinds) > 1:
+                # polars: vertical concat needs the same dtype in every frame ("type String is incompatible with expected type Boolean")
+                _shape_error(f"concat of failure_case columns of dtypes {sorted(kinds)}")
+            return HeightFrame(total, 6, "concat", fc_dtype=items[0].fc_dtype)
 
         I.models[id(pl.concat)] = concat
 
@@ -138,7 +148,8 @@ class PolarsFailureCasesReport(Contract):
             lens = {len(v) for v in dict(data).values()}
             if lens != {1}:
                 raise core.Unsupported("pl.DataFrame of ragged / multi-row columns")
-            return HeightFrame(SNum(z3.IntVal(1)), len(dict(data)), "scalar_failure_case")
+            v = dict(data)["failure_case"][0]
+            return HeightFrame(SNum(z3.IntVal(1)), len(dict(data)), "scalar_failure_case", fc_dtype="bool" if isinstance(v, (bool, core.SBool)) else "utf8")
 
         I.models[id(pl.DataFrame)] = dataframe
         from pandera.api.base.error_handler import ErrorHandler as EH
@@ -152,15 +163,16 @@ class PolarsFailureCasesReport(Contract):
         errs = ListObj()
         heights = []
         for j in range(m):
-            kind = cur().choose([("scalar", None), ("one_column", None), ("two_columns", None)], f"failure_cases(err{j})")
+            kind = cur().choose([("scalar", None), ("one_column", None), ("two_columns", None), ("scalar_false", None)], f"failure_cases(err{j})")
             class Column:  # (only __name__ is read: the schema_context column of the report)
                 pass
 
             e = Obj(SchemaError, f"err{j}", pre=True, fields=dict(schema=T.Ref(Column, name=T.Const("col")), check=T.Const("some_check"), check_index=T.Any,
                                                                   reason_code=T.OneOf(*CODES), data=T.Any))
             e.attrs["args"] = ("msg",)
-            if kind == 0:
-                fc, mask, h = "Int64", None, 1  # a scalar failure case: the text of a dtype / a column name / False
+            if kind in (0, 3):
+                # a scalar failure case: the text of a dtype / a column name, or the False of a check that answers with one bool
+                fc, mask, h = ("Int64" if kind == 0 else False), None, 1
             else:
                 h = core.sym_int(f"n_failure_cases(err{j})")
                 cur().assume(h >= 0)
